@@ -69,10 +69,11 @@ struct ThreadState
   int level = 0;
   int active_level = 0;  // enclosing regions with more than one thread
   int thread_num = 0;
+  int nthreads_var = 0;  // nthreads-var ICV of this thread's data environment (0: the global default). As in libgomp it is per
+                         // thread: omp_set_num_threads() changes the calling thread's copy, other native threads keep the default
 };
 thread_local ThreadState tls;
 
-int g_nthreads_var = 0;  // 0: not set -> number of processors
 int g_max_active_levels = 1;  // nested regions beyond this many active levels get a team of one
 
 int default_threads()
@@ -91,6 +92,7 @@ struct Start
   int num;
   int level;
   int active_level;
+  int nthreads_var;  // inherited from the thread that encountered the parallel construct
 };
 
 void *team_thread(void *p)
@@ -102,6 +104,7 @@ void *team_thread(void *p)
   tls.level = s->level;
   tls.active_level = s->active_level;
   tls.thread_num = s->num;
+  tls.nthreads_var = s->nthreads_var;
   s->team->fn(s->team->data);
   drain_tasks(s->team);  // implicit barrier at the end of the region: a task scheduling point
   tls = saved;
@@ -115,9 +118,9 @@ extern "C" {
 void omp_set_num_threads(int n)
 {
   if (n > 0)
-    g_nthreads_var = n;
+    tls.nthreads_var = n;
 }
-int omp_get_max_threads(void) { return g_nthreads_var > 0 ? g_nthreads_var : default_threads(); }
+int omp_get_max_threads(void) { return tls.nthreads_var > 0 ? tls.nthreads_var : default_threads(); }
 int omp_get_num_threads(void) { return tls.team ? tls.team->nthreads : 1; }
 int omp_get_thread_num(void) { return tls.thread_num; }
 int omp_in_parallel(void) { return tls.active_level > 0; }
@@ -147,10 +150,10 @@ void GOMP_parallel(void (*fn)(void *), void *data, unsigned num_threads, unsigne
   int level = tls.level + 1;
   int active = tls.active_level + (n > 1 ? 1 : 0);
   for (int i = 1; i < n; i++) {
-    starts[(size_t)i] = {&team, i, level, active};
+    starts[(size_t)i] = {&team, i, level, active, tls.nthreads_var};
     pthread_create(&ths[(size_t)i], nullptr, team_thread, &starts[(size_t)i]);
   }
-  starts[0] = {&team, 0, level, active};
+  starts[0] = {&team, 0, level, active, tls.nthreads_var};
   team_thread(&starts[0]);
   for (int i = 1; i < n; i++)
     pthread_join(ths[(size_t)i], nullptr);
